@@ -334,18 +334,25 @@ def check_rotate(ctx):
     finish(ctx, ob, bad, 'journal-manager/rotation-not-registered')
 
 
+TICK_NOINLINE = [r'run_flush$', r'run_compaction$', r'^flush::worker::run$', r'^compaction::worker::run$', r'JournalManager::maintenance$', r'JournalManager::rotate_journal$', r'Supervisor::build_seqno_map$',
+                 r'get_keyspaces_to_flush_for_oldest_journal_eviction$', r'inner_rotate_memtable$', r'request_rotation$', r'FlushManager::dequeue$']
+
+
+def run_tick(ctx):
+    """one worker_tick from an arbitrary worker state and message (shared by C10, C13, C14)"""
+    return ctx.run(r'^(worker_pool::)?worker_tick$', cache_key='worker.tick', loop_bound=2, no_inline=TICK_NOINLINE)
+
+
 def check_tick(ctx):
     pat = r'^(worker_pool::)?worker_tick$'
     ob = ctx.ob('tick/rotation-atomic', 'worker flush tick: watermark capture and journal rotation happen under one hold of the journal lock; maintenance runs after the flush', [pat])
-    ex, paths = ctx.run(pat, cache_key='c10.tick', loop_bound=2,
-                        no_inline=[r'run_flush$', r'run_compaction$', r'JournalManager::maintenance$', r'JournalManager::rotate_journal$', r'Supervisor::build_seqno_map$',
-                                   r'get_keyspaces_to_flush_for_oldest_journal_eviction$', r'inner_rotate_memtable$', r'request_rotation$', r'FlushManager::dequeue$'])
+    ex, paths = run_tick(ctx)
     bad = []
     for p in paths:
         calls = [e for e in p.events if e.kind == 'CALL']
         rot = [e for e in calls if e.args.get('callee', '').endswith('rotate_journal')]
         bm = [e for e in calls if e.args.get('callee', '').endswith('build_seqno_map')]
-        fl = [e for e in calls if e.args.get('callee', '').endswith('run_flush')]
+        fl = [e for e in calls if e.args.get('callee', '').endswith(('run_flush', 'flush::worker::run'))]
         mt = [e for e in calls if e.args.get('callee', '').endswith('JournalManager::maintenance')]
         if rot:
             ob.reach += 1
